@@ -359,10 +359,10 @@ func runC08(c *Ctx) {
 	known := map[string]bool{"MOVQ": true, "MOVL": true, "XCHGL": true, "CMPXCHGL": true, "TESTL": true, "TESTQ": true, "JNZ": true, "JZ": true, "JNE": true, "JEQ": true, "JMP": true, "PAUSE": true, "DECL": true, "CALL": true, "RET": true}
 	// two-operand ALU instructions (Plan 9 order: src, dst), one-operand ones, and compares
 	alu2 := map[string]bool{"XORL": true, "XORQ": true, "ADDL": true, "ADDQ": true, "SUBL": true, "SUBQ": true, "ANDL": true, "ANDQ": true, "ORL": true, "ORQ": true,
-		"SHLL": true, "SHLQ": true, "SHRL": true, "SHRQ": true, "LEAQ": true, "LEAL": true, "MOVLQZX": true, "MOVBLZX": true, "MOVWLZX": true}
+		"SHLL": true, "SHLQ": true, "SHRL": true, "SHRQ": true, "BTSL": true, "BTRL": true, "BTCL": true, "BTSQ": true, "BTRQ": true, "XADDL": true, "LEAQ": true, "LEAL": true, "MOVLQZX": true, "MOVBLZX": true, "MOVWLZX": true}
 	alu1 := map[string]bool{"INCL": true, "INCQ": true, "DECQ": true, "NEGL": true, "NEGQ": true, "NOTL": true, "NOTQ": true}
 	cmps := map[string]bool{"CMPL": true, "CMPQ": true, "NOP": true}
-	condJumps := map[string]bool{"JNZ": true, "JZ": true, "JNE": true, "JEQ": true, "JLT": true, "JLE": true, "JGT": true, "JGE": true, "JHI": true, "JLS": true, "JCS": true, "JCC": true, "JMI": true, "JPL": true}
+	condJumps := map[string]bool{"JNZ": true, "JZ": true, "JNE": true, "JEQ": true, "JLT": true, "JLE": true, "JGT": true, "JGE": true, "JHI": true, "JLS": true, "JCS": true, "JCC": true, "JC": true, "JNC": true, "JMI": true, "JPL": true}
 	for k := range alu2 {
 		known[k] = true
 	}
@@ -393,7 +393,7 @@ func runC08(c *Ctx) {
 				continue
 			}
 			succ[i] = []int{t}
-		case "JNZ", "JZ", "JNE", "JEQ", "JLT", "JLE", "JGT", "JGE", "JHI", "JLS", "JCS", "JCC", "JMI", "JPL":
+		case "JNZ", "JZ", "JNE", "JEQ", "JLT", "JLE", "JGT", "JGE", "JHI", "JLS", "JCS", "JCC", "JC", "JNC", "JMI", "JPL":
 			t, ok := label[x.args[0]]
 			if !ok || i+1 >= len(ins) {
 				undecided = "jump to unknown label " + x.args[0]
